@@ -88,3 +88,10 @@ fn c19_next_track_id_with_audio() {
     let max_id = mv.tracks.iter().map(|t| mp4read::be32(&t.tkhd, 12)).max().unwrap();
     assert!(next > max_id, "next_track_ID {} <= track id {}", next, max_id);
 }
+/// a VP9 frame shorter than the 3-byte frame marker must not panic in the keyframe probe (INV-104); found by Kani harness kb_is_keyframe_av1_vp9.
+#[test]
+fn c12_encode_video_short_vp9_frame() {
+    let mut m = MuxerBuilder::new(SharedSink::default()).video(VideoCodec::Vp9, 64, 64, 30.0).build().unwrap();
+    let r = catch_unwind(AssertUnwindSafe(|| m.encode_video(&[1, 2], 33)));
+    assert!(matches!(r, Ok(Err(_))), "encode_video panicked on a 2-byte VP9 frame");
+}
